@@ -348,8 +348,20 @@ impl State {
         self.build_from_file(path, ContextMode::Compile)
     }
 
+    // The previous program stopped with an error: a new submission never
+    // resumes (and so never re-executes) what was left of it.
+    fn abandon_failed_run(&mut self) {
+        if self.nested.is_empty() && self.last_error.is_some() && self.is_running() {
+            self.ctx.ip = self.code.len();
+            self.return_stack.truncate(self.ctx.rs_len);
+            self.loops.truncate(self.ctx.ls_len);
+            self.special.truncate(self.ctx.ss_ptr);
+        }
+    }
+
     fn build_from_file(&mut self, path: Xstr, mode: ContextMode) -> Xresult {
         let s = crate::file::fs_overlay::read_source_file(&path)?;
+        self.abandon_failed_run();
         let (nested_len, input_len) = (self.nested.len(), self.input.len());
         self.context_open(mode)?;
         self.intern_source(s.into(), Some(path))?;
@@ -358,6 +370,7 @@ impl State {
     }
 
     fn build_from_source(&mut self, s: Xstr, mode: ContextMode) -> Xresult {
+        self.abandon_failed_run();
         let (nested_len, input_len) = (self.nested.len(), self.input.len());
         self.context_open(mode)?;
         self.intern_source(s, None)?;
